@@ -418,7 +418,9 @@ def url(ctx, prog, ev):
     walk(items)
     name_classes = [c for c in classes if rx.class_members(c)[0]]
     ctx.ob("C16-D3/REGEX", len(name_classes) >= 4, cr.site(), "each of the four name positions uses a negated (forbidden characters) class", detail=str(len(name_classes)), func=cr.qualname)
-    for ch in ("/", ":", "#", "$", "@", "\n", " ", "\x00"):
+    # the grammar's complete forbidden set (spec.lbry.com: = & # : $ @ % ? ; " / \\ < > { } | ^ ~ ` [ ], controls and space, surrogates, U+FFFE/U+FFFF)
+    for ch in ("/", ":", "#", "$", "@", "\n", " ", "\x00", "=", "&", "%", "?", ";", '"', "\\", "<", ">", "{", "}", "|", "^", "~", "`", "[", "]", "\x1f", "\t",
+               "\ud800", "\udfff", "\ufffe", "\uffff"):
         ok = bool(name_classes) and all(rx.in_class(c, ord(ch)) is False for c in name_classes)
         ctx.ob("C16-D3/REGEX", ok, cr.site(), f"a name cannot contain {ch!r} (separators, channel marker and controls are forbidden inside names)", func=cr.qualname,
                key=f"C16-D3/REGEX|forbidden|{ord(ch)}")
@@ -611,3 +613,18 @@ def printers(ctx, prog):
         (f"setattr(self, {c}, Decimal({m}))", f"{m} and {c} and not {c} not in ('lbc', 'btc', 'usd')", "the amount is set through the setter of that currency (lbc / btc / usd)"),
         (f"self.address = {a}", f"{a} and self.currency", "the address is set when a currency is known"),
     ], "Fee.update: ")
+    # legacy v1 claims: the payload that was signed is the message WITHOUT its signature field
+    fv = ctx.fa("lbry.schema.compat.from_types_v1")
+    ups = [x for x in fv.stmts(ast.Assign) if norm_text(x.targets[0]) == "claim.unsigned_payload"]
+    clr = [c for c in fv.calls(name="ClearField") if c.args and is_const(c.args[0], "publisherSignature")]
+    ok = len(ups) == 1 and len(clr) == 1 and norm_text(ups[0].value) == f"{dotted(clr[0].func.value)}.SerializeToString()" and fv.must_precede(ups[0], lambda n: n is clr[0]) is None
+    ctx.ob("C16-D1/LEGACY", ok, fv.site(), "legacy v1: the signature field is cleared before the message is serialised as the unsigned payload (signatures of earlier releases are over the "
+           "payload without the signature)", func=fv.fi.qualname, key="C16-D1/LEGACY|unsigned-payload-order")
+    tl = ctx.fa("lbry.schema.attrs.TagList.append")
+    tg = tl.fi.params()[1]
+    nz = [x for x in tl.stmts(ast.Assign) if norm_text(x) == f"{tg} = normalize_tag({tg})"]
+    aps = [c for c in tl.calls(dotted_name="self.message.append")]
+    ok = len(nz) == 1 and len(aps) == 1 and [dotted(a) for a in aps[0].args] == [tg] and tl.must_precede(aps[0], lambda n: n is nz[0].value) is None and not R.atomic_facts_at(tl, nz[0])[0]
+    ctx.ob("C16-D2/SYM", ok, tl.site(), "a tag is normalised first; emptiness and duplicates are judged on, and what is stored is, the normalised tag", func=tl.fi.qualname, key="C16-D2/SYM|taglist")
+    for c in aps:
+        R.exact_gate(ctx, "C16-D2/SYM", tl, c, f"{tg} and {tg} not in self.message", "…stored exactly when non-empty and new", key="C16-D2/SYM|taglist-exact")
